@@ -411,6 +411,27 @@ theorem C10_accepted_never_panics {δ : Type} (src : Str) (p : Parsed) (sigs : L
       | err e d' log => rw [hx] at hs; cases hs
       | panic m => rw [hx] at hs; cases hs
 
+/-- the same for the static iterator: iterated without a driver for any number of steps, going on behind every error
+item, it never panics -/
+theorem C10_static_never_panics_continued (src : Str) (p : Parsed) (sigs : List Signal) (tc : TestCase)
+    (hp : parseTest src = .ok p) (hb : withSignals p sigs = .ok tc)
+    (hsv : ∀ sg ∈ sigs, ∀ e, sg.typ = .virt e → e.WF) (rng : Rng) (fuel : Nat) :
+    ∀ s, tryIterStatic tc rng = .ok s → ∀ n, NoPanicRunC tc staticDriver fuel n s () := by
+  have hw := C10_accepted_wf src p sigs tc hp hb hsv
+  intro s hs n
+  unfold tryIterStatic at hs
+  split at hs
+  · cases hs
+  · have hcs := C10_ctor_no_panic tc _ hw staticDriver () rng
+    cases hx : tryNew tc staticDriver () rng with
+    | ok s' d' log =>
+      rw [hx] at hs
+      simp only [StaticCtor.ok.injEq] at hs
+      subst hs
+      exact C10_run_no_panic_continued tc _ hw staticDriver fuel n s' () (hcs.2 s' d' log hx)
+    | err e d' log => rw [hx] at hs; cases hs
+    | panic m => rw [hx] at hs; cases hs
+
 /-- **The named conditions are error results of evaluation**, never panics: division and remainder
 by zero, a name that is neither a variable in scope nor an output, a `Z`/`X` value, an empty
 `random` range, a function that is not implemented. -/
